@@ -85,8 +85,17 @@ def gen(rng, tier):
                                   for p in rng.sample(['a', 'b'],
                                                       rng.randint(1, 2))]})
       elif r < 0.87:
-        stmts.append({'k': 'macro', 'name': 'M0',
-                      'val': _val(rng, True, allow_macro=False)})
+        val = _val(rng, True, allow_macro=False)
+
+        def unevaluate(node):
+          # M0 may be used by a binding of LATE: an evaluated @late0() inside
+          # M0 would then be a cycle of the generated configuration itself
+          if 'ref' in node and node['ref'][1] == LATE:
+            node['ref'][2] = False
+          for x in node.get('list', []):
+            unevaluate(x)
+        unevaluate(val)
+        stmts.append({'k': 'macro', 'name': 'M0', 'val': val})
       else:
         stmts.append({'k': 'import', 'form': 'import',
                       'module': rng.choice(['vsim_mods.alpha',
